@@ -110,6 +110,7 @@ impl Prop for C05 {
             "double_fault_first_wins",
             "capacity_fault_in_terminator",
             "formatter_fault_in_message_start",
+            "empty_unit_between_units",
         ];
         v.into_iter().map(String::from).collect()
     }
@@ -204,6 +205,20 @@ impl Prop for C05 {
                 m.units[i].path = path;
                 t.steps.push(send(m, FmtCfg::Vec));
             }
+            // an empty unit in front of unit i (`A;;B`): whether 488.2 allows it is not settled here,
+            // but everything in front of it must have been executed when it is reached
+            if i > 0 {
+                let mut m = base.clone();
+                m.units.insert(
+                    i,
+                    Unit {
+                        hfault: Some(("empty_unit".to_string(), B::new())),
+                        lead: if rng.chance(1, 3) { B::from(" ") } else { B::new() },
+                        ..Default::default()
+                    },
+                );
+                t.steps.push(send(m, FmtCfg::Vec));
+            }
             // double fault: unit i fails by handler error, a later app unit would fail too
             if app && i + 1 < k {
                 let later: Vec<usize> = ((i + 1)..k).filter(|x| is_app(&tc, &base, *x)).collect();
@@ -277,9 +292,21 @@ impl Prop for C05 {
                     }
                     return;
                 }
-                let pred = predict(&world.root, before, s, Reading::Condition);
+                let mut pred = predict(&world.root, before, s, Reading::Condition);
                 if !pred.structural {
                     return;
+                }
+                // an empty unit that the implementation accepts: judge as if it were not there
+                if o.result.is_ok() {
+                    if let Some(pos) = s.msg.units.iter().position(|u| matches!(&u.hfault, Some((k, _)) if k == "empty_unit")) {
+                        let mut s2 = s.clone();
+                        s2.msg.units.remove(pos);
+                        pred = predict(&world.root, before, &s2, Reading::Condition);
+                        stats.bump("empty_unit_accepted");
+                    }
+                }
+                if s.msg.units.iter().any(|u| matches!(&u.hfault, Some((k, _)) if k == "empty_unit")) {
+                    stats.probe("empty_unit_between_units");
                 }
                 let k = s.msg.units.len();
                 let mut kind: &str = "none";
